@@ -125,8 +125,7 @@ func (u *Unit) subRef(dt *structDT, field int, ref *Term) *Term {
 	r := u.m.tb.App(name, SInt, ref)
 	if !u.quiet && !r.bound {
 		tb := u.m.tb
-		u.m.UF("Alloc0", SBool, SInt)
-		u.assume(tb.True(), tb.And(tb.Eq(tb.App("Alloc0", SBool, r), tb.App("Alloc0", SBool, ref)), tb.Implies(tb.Lt(tb.Int(0), ref), tb.Lt(tb.Int(0), r))))
+		u.assume(tb.True(), tb.And(tb.Eq(u.isAlloc0(r), u.isAlloc0(ref)), tb.Implies(tb.Lt(tb.Int(0), ref), tb.Lt(tb.Int(0), r))))
 	}
 	return r
 }
@@ -170,8 +169,7 @@ func (u *Unit) assumeEntryAllocated(arr, v *Term, t types.Type) {
 	default:
 		return
 	}
-	u.m.UF("Alloc0", SBool, SInt)
-	u.assume(tb.True(), tb.Or(tb.Eq(ref, tb.Int(0)), tb.App("Alloc0", SBool, ref)))
+	u.assume(tb.True(), tb.Or(tb.Eq(ref, tb.Int(0)), u.isAlloc0(ref)))
 }
 
 func (u *Unit) storeField(st *State, ref *Term, dt *structDT, i int, v *Term) {
@@ -273,7 +271,7 @@ func (u *Unit) load(st *State, p *Ptr) Val {
 		}
 	}
 	if tv, ok := v.(*Term); ok && !u.quiet {
-		u.assumeTyping(st.guard, tv, p.typ)
+		u.assumeTyping(st.guard, tv, p.typ, st)
 	}
 	return v
 }
@@ -344,7 +342,12 @@ func (u *Unit) mergeStates(ins []inEdge) *State {
 			keys[k] = true
 		}
 	}
+	var ckeys []any
 	for k := range keys {
+		ckeys = append(ckeys, k)
+	}
+	sort.Slice(ckeys, func(i, j int) bool { return cellName(ckeys[i]) < cellName(ckeys[j]) })
+	for _, k := range ckeys {
 		var vals []Val
 		var gs []*Term
 		for _, e := range ins {
